@@ -94,13 +94,55 @@ def quic_table(case):
     return res
 
 
+PAIR_FIRST = [0x1301, 0x1302, 0x1303, 0x1304, 0x1305, 0x0a0a, 0xc02f]
+
+
+def quic_pair(case, seed):
+    """The QUIC resolver runs more than once per connection - for the first suite the client offers (0-RTT), then for the one the server selects.  What is in effect
+    afterwards must be what the *selected* code point denotes, whatever was resolved before it: a real connection per ordered pair (first offered, selected) must be
+    exported exactly (packets are protected with the selected suite's AEAD, so any other resolution exports nothing)."""
+    import random
+    from vlib import e2e, engine, outparse, quicsynth, scene, tcpcap
+    from checks.c02 import check_quic_output
+    rng = random.Random(engine.subseed("C14", seed, case["id"]))
+    s = quicsynth.random_qspec(rng, napp=rng.choice([2, 4]))
+    first, sel = case["first"], case["sel"]
+    s.suite = sel
+    if first == sel:
+        s.offered = (sel,) + tuple(x for x in rng.sample(PAIR_FIRST, 2) if x != sel)
+    else:
+        s.offered = (first, sel) if rng.random() < 0.5 else (first,) + tuple(x for x in rng.sample(PAIR_FIRST, 2) if x not in (first, sel)) + (sel,)
+        s.zero_rtt, s.zero_rtt_before_retry, s.zero_rtt_coalesce = [], 0, False
+    s.key_updates = ()
+    qc = quicsynth.build_qconn(s, rng)
+    ep = tcpcap.random_ep(rng)
+    fl = scene.quic_flow(qc, ep)
+    items = scene.stamp(scene.merge([fl], rng, "concat"), rng)
+    res, files, argv = e2e.run_capture(scene.capture(items), scene.keylog_text([fl], rng), [])
+    out = {"cls": ["quic-pair", f"{first:04X}", f"{sel:04X}"], "classes": [f"quic-pair-{first:04X}-{sel:04X}"], "units": 1, "tags": ["quic-pair"],
+           "sample": {"case": case["id"], "offered": [f"{x:04X}" for x in s.offered], "selected": f"{sel:04X}"}, "mon": {"quic.connections_per_offer_pair": 1}}
+    fail = e2e.run_failed(res)
+    if fail:
+        return dict(out, v="inconclusive" if fail.startswith("INCONCLUSIVE") else "violated", msg=fail, files=files)
+    msgs, _ = check_quic_output(outparse.Analysis(res.out), qc, ep)
+    out["nontrivial"] = bool(qc.expect)
+    if msgs:
+        return dict(out, v="violated", msg=f"ClientHello offers {[f'{x:04X}' for x in s.offered]}, server selects {sel:04X} ({suites.REGISTRY.get(sel)}): the connection is not "
+                                           f"exported as that suite's parameters would export it - {msgs[0][:200]}", files=files)
+    return dict(out, v="held")
+
+
 def build(tier, seed):
     chunk = 4096
     cases = [{"id": f"codes-{lo:04x}-{lo + chunk - 1:04x}", "lo": lo, "hi": lo + chunk} for lo in range(0, 65536, chunk)]
     cases += [{"id": f"quic-codes-{lo:04x}-{lo + chunk - 1:04x}", "lo": lo, "hi": lo + chunk, "quic": True} for lo in range(0, 65536, chunk)]
+    for r in range(12 if tier == "thorough" else 1):
+        cases += [{"id": f"quic-pair{r}-{f:04x}-{s_:04x}", "pair": True, "first": f, "sel": s_} for f in PAIR_FIRST for s_ in (0x1301, 0x1302, 0x1303, 0x1304)]
 
     def evalfn(case):
         logging.disable(logging.CRITICAL)
+        if case.get("pair"):
+            return quic_pair(case, seed)
         if case.get("quic"):
             return quic_table(case)
         import tlexport.cipher_suite_parser as csp
@@ -138,7 +180,7 @@ def build(tier, seed):
                 "quic_resolver_accepts": sorted({c[5:] for r in results for c in (r.get("classes") or []) if c.startswith("quic-") and not c.startswith("quic-rejected")})}
 
     return dict(cases=cases, evalfn=evalfn, level="exploration", exhaustive=True, min_nontrivial=16,
-                rule="all 65 536 two-byte code points, each passed to the real split_cipher_suite and to the QUIC path's own resolver (QuicSession.set_tls_decryptors) under the contract; a class is an "
+                rule="all 65 536 two-byte code points, each passed to the real split_cipher_suite and to the QUIC path's own resolver (QuicSession.set_tls_decryptors) under the contract; and, for the QUIC path, one real connection per ordered pair (first offered suite, selected suite) exported exactly; a class is an "
                      "accepted code point (checked against registry + independent name parser) or a rejected 4096-block; every case is non-trivial",
                 assumptions=["registry/iana_tls_cipher_suites.json is a faithful copy of the IANA registry (cross-checked at setup "
                              "against the scapy and dpkt copies)", "the harness's structural name parser"], extra=extra)
